@@ -435,6 +435,7 @@ def to_events(case, res):
             evs.insert(fin, evs.pop(lc))
     out = []
     started = set()
+    constructing = set()
     fail_ids = []
     accept_ended = False
     for rec in evs:
@@ -446,9 +447,20 @@ def to_events(case, res):
             out += ["AcceptCall 0"]
         elif k == "LoaderStart":
             out += ["Start 0 Aio %d %d %d true" % (tid, e[1], e[2])]
+        elif k == "Constructing":
+            # the constructor of a service is a synchronous section of the loading payload; its unit is
+            # registered (in __new__) before the constructor body starts
+            el = [x for x in case["elems"] if x["ident"] == e[1] and x["flavour"]]
+            if el:
+                out += ["Enter 0", "NewService (InPayload 0) %d %s" % (sid(e[1]), FL[el[0]["flavour"]])]
+                constructing.add(e[1])
         elif k == "Constructed":
             if e[3]:
-                out += ["NewService (InPayload 0) %d %s" % (sid(e[1]), FL[e[3]])]
+                if e[1] in constructing:
+                    constructing.discard(e[1])
+                    out += ["Exit 0"]
+                else:
+                    out += ["NewService (InPayload 0) %d %s" % (sid(e[1]), FL[e[3]])]
         elif k == "Start":
             fl = e[2]
             loop, other = (e[3], e[4]) if fl == "asyncio" else (e[4], e[3]) if fl == "trio" else (e[3] or e[4], 0)
